@@ -292,7 +292,7 @@ class Dict:
                 k = yield from (yield orig_key).format()
                 v = yield from (yield value).format()
                 formatted.append((k, v))
-            formatted.sort(key=lambda pair: pair[0])
+            formatted.sort()
             self._format = (
                 "{" + ", ".join(f"{k}: {v}" for k, v in formatted) + "}"
             )
